@@ -282,6 +282,10 @@ def _xi_alphabet(bounds, p, seed):
         add(x, "boundary")
         add(np.nextafter(x, -1.0), "below_boundary")
         add(np.nextafter(x, 2.0), "above_boundary")
+        # close to an element end without being on it (a few 1e-6 and 1e-7 away): still an ordinary interior parameter
+        for dx in (4e-6, 1e-7):
+            add(x - dx, "near_boundary")
+            add(x + dx, "near_boundary")
     for x in 0.5 * (weyl(seed, 90, 5) + 1.0):
         add(x, "generic")
     return sorted(pts.items())
